@@ -123,8 +123,39 @@ def parse_trace_out(out):
 # ---------------------------------------------------------------------------
 # trace jobs: driver -> ndjson -> TLC
 
+def run_mc_job(job, scratch):
+    """Exhaustive TLC run of a bounded model: {name, kind:'mc', module, cfg, workers}. A violated invariant is
+    reported as a model-level finding (exit 2, never a VIOLATION by itself: DESIGN.md verdict policy)."""
+    out, st = run_tlc(job["module"], job["cfg"], scratch, workers=job.get("workers", 8), timeout=job.get("tlc_timeout", 1800),
+                      xmx=job.get("xmx", "8g"), extra=job.get("extra"))
+    if "No error has been found" not in out:
+        raise Infra("model %s/%s: TLC reports an error or did not finish:\n%s" % (job["module"], job["cfg"], out[-3000:]))
+    return {"name": job["name"], "viols": [], "events": 0, "segments": 0, "calls": 0, "states": st["distinct"],
+            "transitions": st["generated"], "tdrv": 0.0, "ttlc": st["wall"], "sample": [], "mc": True}
+
+
+def run_apalache_job(job, scratch):
+    d = tempfile.mkdtemp(prefix="apa-", dir=scratch)
+    shutil.copy(os.path.join(SPEC, job["module"]), d)
+    t0 = time.time()
+    try:
+        p = subprocess.run(["apalache-mc", "check"] + job["args"] + ["--out-dir=" + os.path.join(d, "out"), job["module"]],
+                           cwd=d, capture_output=True, text=True, timeout=job.get("timeout", 600))
+    except subprocess.TimeoutExpired:
+        raise Infra("apalache timed out")
+    out = p.stdout + p.stderr
+    if "The outcome is: NoError" not in out:
+        raise Infra("apalache did not prove %s:\n%s" % (job["module"], out[-2000:]))
+    return {"name": job["name"], "viols": [], "events": 0, "segments": 0, "calls": 0, "states": 1, "transitions": 1,
+            "tdrv": 0.0, "ttlc": time.time() - t0, "sample": [], "mc": True, "proof": True}
+
+
 def run_job(job, scratch):
     """job: {name, driver: [args...], module, cfg}. Returns result dict."""
+    if job.get("kind") == "mc":
+        return run_mc_job(job, scratch)
+    if job.get("kind") == "apalache":
+        return run_apalache_job(job, scratch)
     trace = os.path.join(scratch, job["name"] + ".ndjson")
     cmd = [os.path.join(BIN, "vdrive")] + job["driver"] + ["-out", trace]
     t0 = time.time()
@@ -312,6 +343,11 @@ def plan(prop, tier, seed, known):
                                   extra=["-loss", "2" if q else "5", "-cont", "3", "-nested", "1"]))
         jobs.append(seq_job("unstseq", seed, "data,mix", 4 if q else 16, 250, av))
         jobs.append(probe_job(prop, av))
+    elif prop == "C19":
+        n = 4 if q else 24
+        for i in range(n):
+            jobs.append(seq_job("limits%d" % i, seed * 100 + i, "limits", 3 if q else 8, 150 if q else 300, av, disk=40000, dumpeach=30))
+        jobs.append(probe_job(prop, av))
     elif prop in ("C17", "C18"):
         cmd, mod = ("simple", "SimpleTrace") if prop == "C17" else ("kvs", "KvsTrace")
         for i in range(4 if q else 24):
@@ -321,6 +357,31 @@ def plan(prop, tier, seed, known):
             jobs.append({"name": "%scrash%d" % (cmd, i), "module": mod + ".tla", "cfg": mod + ".cfg",
                          "driver": [cmd, "-seed", str(seed * 100 + 50 + i), "-segs", "2" if q else "4", "-steps", "60", "-disk", "2000",
                                     "-crashpoints", "-loss", "2" if q else "6", "-avoid", av]})
+        if prop == "C18":
+            for i in range(2 if q else 8):
+                jobs.append({"name": "kvsbig%d" % i, "module": mod + ".tla", "cfg": mod + ".cfg", "driver_timeout": 3000,
+                             "driver": [cmd, "-seed", str(seed * 100 + 80 + i), "-segs", "1", "-steps", "8" if q else "14", "-disk", "2000",
+                                        "-crashpoints", "-loss", "1", "-avoid", "__bigput"]})
+    elif prop == "C15":
+        import random
+        rnd = random.Random(seed)
+        NB = 32768
+        if q:
+            rs = sorted(set(rnd.randrange(1540, 3 * NB + 2000) for _ in range(300)))
+            chunks = ["1530-1600,32760-32776,65530-65545,98296-98312", ",".join(str(x) for x in rs[:150]), ",".join(str(x) for x in rs[150:])]
+            fills = ["1541,1546,1557,2003", "", "%d" % rs[10]]
+        else:
+            lo, hi, n = 1530, 3 * NB + 2000, 16
+            step = (hi - lo) // n + 1
+            chunks = ["%d-%d" % (lo + i * step, min(hi, lo + (i + 1) * step - 1)) for i in range(n)]
+            fl = [1541, 1546, 1557, 2003, 5000, 20001, NB - 1, NB, NB + 1, NB + 7, 2 * NB + 3, 3 * NB + 1001]
+            fills = [",".join(str(f) for f in fl if lo + i * step <= f <= lo + (i + 1) * step - 1) for i in range(n)]
+        for i, ch in enumerate(chunks):
+            jobs.append({"name": "layout%d" % i, "module": "NfsTrace.tla", "cfg": "NfsTrace.cfg", "driver_timeout": 3000, "tlc_timeout": 3000,
+                         "driver": ["layout", "-sizes", ch, "-fill", fills[i]]})
+        jobs.append({"name": "Layout_MC", "kind": "mc", "module": "Layout.tla", "cfg": "Layout_MC.cfg"})
+        jobs.append({"name": "Layout_apalache", "kind": "apalache", "module": "Layout.tla",
+                     "args": ["--init=Init", "--inv=Inv", "--next=Next", "--length=0"]})
     else:
         raise Infra("no plan for " + prop)
     return jobs
@@ -385,6 +446,7 @@ def run_check(prop, tier, seed):
             "rpc_calls_validated": sum(r["calls"] for r in res),
             "trace_events": sum(r["events"] for r in res),
             "samples": [r["sample"] for r in res[:2] if r["sample"]] or [["(no call events)"]],
+            "exhaustive_models": [{"name": r["name"], "distinct_states": r["states"], "proof": bool(r.get("proof"))} for r in res if r.get("mc")],
             "jobs": [{"name": r["name"], "segments": r["segments"], "calls": r["calls"], "driver_s": round(r["tdrv"], 2),
                       "tlc_s": round(r["ttlc"], 2)} for r in res],
             "other_property_rejections": notes,
